@@ -1004,6 +1004,72 @@ func (m *Model) ruleTOMB(r *Results) {
 		}
 	}
 	m.tombFlagFromCallers(r, rule)
+	// Per transaction closure: a closure that reads the row's body into an event (NULL for a
+	// tombstone) and hands that event to the function that stores body and flag from it also
+	// decides the event's deletion field - by reading the flag column, or by assigning it. A field
+	// that is never written says "live" for a row without a body.
+	if ftab, _ := m.eventFieldTable(); ftab != nil && ftab["value"] != nil && ftab["tombstone"] != nil {
+		// the functions that store an event's body and flag
+		storers := map[*ssa.Function]bool{}
+		for _, dw := range m.docWrites() {
+			if dw.W.Update == nil && dw.W.Insert == nil {
+				continue
+			}
+			f := rootOf(dw.Site.Fn)
+			for _, p := range f.Params {
+				if pt, ok := p.Type().(*types.Pointer); ok && m.A.EventType != nil && pt.Elem() == types.Type(m.A.EventType) {
+					storers[f] = true
+				}
+			}
+		}
+		seenK := map[*ssa.Function]bool{}
+		for _, tc := range m.txnClosures() {
+			K := tc.Fn
+			if seenK[K] || len(K.Blocks) == 0 {
+				continue
+			}
+			seenK[K] = true
+			callsStorer := false
+			m.eachCall(K, func(c ssa.CallInstruction) {
+				if storers[c.Common().StaticCallee()] {
+					callsStorer = true
+				}
+			})
+			if !callsStorer {
+				continue
+			}
+			readsBody, decidesFlag := false, false
+			for _, b := range K.Blocks {
+				for _, ins := range b.Instrs {
+					fa, ok := ins.(*ssa.FieldAddr)
+					if !ok || fa.Referrers() == nil {
+						continue
+					}
+					f := fieldOf(fa)
+					for _, u := range *fa.Referrers() {
+						switch x := u.(type) {
+						case *ssa.Store:
+							if x.Addr == ssa.Value(fa) && f == ftab["tombstone"] {
+								decidesFlag = true
+							}
+						case *ssa.MakeInterface, ssa.CallInstruction:
+							// handed to a scan as a destination
+							if f == ftab["value"] {
+								readsBody = true
+							}
+							if f == ftab["tombstone"] {
+								decidesFlag = true
+							}
+						}
+					}
+				}
+			}
+			if !readsBody {
+				continue
+			}
+			r.check(decidesFlag, rule, m.declName(K)+" / an event whose body is read from the row has its deletion field decided", m.pos(K.Pos()), "the closure reads or assigns the event's deletion field", "the closure reads the row's body into the event (NULL for a tombstone) and hands the event to the function that stores body and flag from it, but never reads or assigns the event's deletion field: applied to a tombstone it leaves a row without a body that is flagged live - feeds report a mutation, inserts refuse the key, reads say it is missing")
+		}
+	}
 	r.floor(rule, 9)
 }
 
